@@ -7,7 +7,7 @@ Open Scope N_scope.
    programs of atomic steps — one step per critical section of the real code:
      index lookup (bucket lock held) | primary read (outside it) | primary pool append | index insert / update / remove
    A schedule is any list of thread numbers.  Ghost state: the specification map, changed only at linearization points. *)
-Inductive call2 := QPut (k v : bytes) | QGet (k : bytes) | QRemove (k : bytes) | QHas (k : bytes) | QSize (k : bytes).
+Inductive call2 := QPut (k v : bytes) | QGet (k : bytes) | QRemove (k : bytes) | QHas (k : bytes) | QSize (k : bytes) | QFlush.
 Inductive pc2 :=
 | QStart (c : call2)
 | QPutB (k v ik : bytes)                                  (* key seen absent; next: append to the primary pool *)
@@ -96,6 +96,11 @@ Definition istep2 (s : store) (m : smap) (p : pc2) : store * smap * pc2 :=
       | PNil => (s, m, QDone (RSize false 0) lin)
       | PErr => (s, m, QDone RErr lin)
       end
+  | QStart QFlush =>
+      (* Store.Flush as ONE step, taken at the instant its pools are swapped (under the flush lock and the bucket lock): from then on a
+         lookup finds the records being written in the swapped-out pool, afterwards in the file - the same list either way; the oracle of
+         the sequential model (the order in which the dirty buckets are written) is the pool's own order *)
+      (fst (step s (OFlush (map fst (inext (sidx s))))), m, QDone ROk ROk)
   | QStart (QRemove k) =>
       match mh_digest k with None => (s, m, QDone RErr RErr) | Some ik =>
       match idx_get (sidx s) ik with
@@ -141,6 +146,7 @@ Definition wkey2 (p : pc2) : option bytes :=
 Definition know2 (s : store) (m : smap) (p : pc2) : Prop :=
   match p with
   | QStart (QPut k _) | QStart (QGet k) | QStart (QRemove k) | QStart (QHas k) | QStart (QSize k) => forall ik, mh_digest k = Some ik -> U ik
+  | QStart QFlush => True
   | QPutB k v ik => mh_digest k = Some ik /\ U ik /\ m ik = None
   | QPutC k v ik loc => mh_digest k = Some ik /\ U ik /\ m ik = None /\ solid (spri s) loc k v
   | QUpdB k v ik prev => mh_digest k = Some ik /\ imm = false /\ exists k0 v0, m ik = Some (k0, v0) /\ beq v v0 = false
@@ -177,7 +183,7 @@ Lemma know2_stable s m s' m' p w :
   know2 s m p -> know2 s' m' p.
 Proof.
   intros Hsol Hm Hw.
-  destruct p as [[k v|k|k|k|k]|k v ik|k v ik loc|k v ik prev|k v ik prev loc|ik b lin|ik b lin|k ik b lin|k ik b|k ik b|r lin]; cbn [know2 wkey2] in *; auto.
+  destruct p as [[k v|k|k|k|k|]|k v ik|k v ik loc|k v ik prev|k v ik prev loc|ik b lin|ik b lin|k ik b lin|k ik b|k ik b|r lin]; cbn [know2 wkey2] in *; auto.
   - intros (A & B & C). split; [exact A|]. split; [exact B|]. rewrite Hm; [exact C|]. apply Hw. reflexivity.
   - intros (A & B & C & D). split; [exact A|]. split; [exact B|]. split; [|apply Hsol; exact D].
     rewrite Hm; [exact C|]. apply Hw. reflexivity.
@@ -222,7 +228,7 @@ Proof.
       + rewrite nth_set_nth_other in Hi by exact Hti. rewrite nth_set_nth_other in Hj by exact Htj. apply (Hd i j pi pj _ Hij Hi Hj Hwi). }
   assert (Same : forall p', know2 s m p' -> (forall ik, wkey2 p' = Some ik -> wkey2 p = Some ik) -> CInv2 (s, m, set_nth t p' ps)).
   { intros p' Kp' Hw. apply (Change s m p' None); auto. intros; discriminate. }
-  destruct p as [[k v|k|k|k|k]|k v ik|k v ik loc|k v ik prev|k v ik prev loc|ik b lin|ik b lin|k ik b lin|k ik b|k ik b|r lin]; cbn [istep2].
+  destruct p as [[k v|k|k|k|k|]|k v ik|k v ik loc|k v ik prev|k v ik prev loc|ik b lin|ik b lin|k ik b lin|k ik b|k ik b|r lin]; cbn [istep2].
   - (* Put: look the key up *)
     cbn [know2] in Kp. destruct (mh_digest k) as [ik|] eqn:Hdk; [|apply Same; [reflexivity|intros ? H; discriminate]].
     specialize (Kp ik eq_refl).
@@ -299,6 +305,20 @@ Proof.
         destruct (idx_get_solid bits U s m ik _ HR Hi) as (k1 & v1 & ik1 & Hs1 & _ & _).
         destruct (solid_get _ _ _ _ PI Hs1) as [Hg1 _]. unfold pget in Hg. rewrite Hg in Hg1. inversion Hg1; subst k1 v1.
         exists k', v'. split; [exact Hs1|]. right. exists ik'. auto.
+  - (* Flush: both pools go to their files; the map, and what any other call knows, are untouched *)
+    cbn [step]. destruct (negb (idx_work (sidx s)) && negb (pri_work (spri s))); cbn [fst].
+    + apply Same; [reflexivity|intros ? H; discriminate].
+    + assert (Hcov : covers (map fst (inext (sidx s))) (inext (sidx s))).
+      { intros b Hb. clear -Hb. induction (inext (sidx s)) as [|[b0 l0] t IH]; cbn [aget] in Hb; [congruence|].
+        cbn [map fst]. destruct (N.eqb_spec b0 b); [left; auto|right; apply IH; exact Hb]. }
+      destruct (pri_flush_spec (spri s) PI) as (_ & Hfr & _).
+      apply (Change _ m (QDone ROk ROk) None).
+      * apply (sim_flush bits U s m _ HR Hcov).
+      * exact Hfr.
+      * reflexivity.
+      * intros; discriminate.
+      * reflexivity.
+      * intros ? H; discriminate.
   - (* Put of a new key: append to the primary pool — a stutter *)
     cbn [know2] in Kp. destruct Kp as (Hdk & Hu & Hm).
     destruct (pri_put_spec (spri s) k v PI) as (PI' & Hnew & Hfr).
@@ -391,7 +411,7 @@ Qed.
 Lemma exec_inv2 sched : forall c, CInv2 c -> CInv2 (exec2 c sched).
 Proof. induction sched as [|t sched IH]; intros c HI; cbn [exec2 fold_left]; [exact HI|]. apply IH. apply step_inv2; exact HI. Qed.
 
-Definition call_key (c : call2) : bytes := match c with QPut k _ | QGet k | QRemove k | QHas k | QSize k => k end.
+Definition call_key (c : call2) : bytes := match c with QPut k _ | QGet k | QRemove k | QHas k | QSize k => k | QFlush => [] end.
 Definition is_writer (c : call2) : bool := match c with QPut _ _ | QRemove _ => true | _ => false end.
 (* every thread is about to start one call; no two WRITERS (Put / Remove) address the same key *)
 Definition init_ok2 (s : store) (m : smap) (calls : list call2) : Prop :=
@@ -405,12 +425,12 @@ Lemma init_inv2 s m calls : init_ok2 s m calls -> CInv2 (s, m, map QStart calls)
 Proof.
   intros (HR & HUk & Hdist). constructor; cbn [fst snd]; [exact HR| |].
   - intros t p Hp. rewrite nth_error_map in Hp. destruct (nth_error calls t) as [c|] eqn:Hc; [|discriminate].
-    inversion Hp; subst p. apply nth_error_In in Hc. destruct c as [k v|k|k|k|k]; cbn [know2]; intros ik Hd; apply (HUk _ ik Hc Hd).
+    inversion Hp; subst p. apply nth_error_In in Hc. destruct c as [k v|k|k|k|k|]; cbn [know2]; [| | | | |exact I]; intros ik Hd; apply (HUk _ ik Hc Hd).
   - intros i j pi pj ik Hij Hi Hj Hw. rewrite nth_error_map in Hi, Hj.
     destruct (nth_error calls i) as [ci|] eqn:Hci; [|discriminate]. destruct (nth_error calls j) as [cj|] eqn:Hcj; [|discriminate].
     inversion Hi; inversion Hj; subst pi pj.
-    destruct ci as [k v|k|k|k|k]; cbn [wkey2] in Hw; try discriminate;
-      destruct cj as [k' v'|k'|k'|k'|k']; cbn [wkey2]; try discriminate;
+    destruct ci as [k v|k|k|k|k|]; cbn [wkey2] in Hw; try discriminate;
+      destruct cj as [k' v'|k'|k'|k'|k'|]; cbn [wkey2]; try discriminate;
       eapply (Hdist i j _ _ ik Hij Hci Hcj); reflexivity || exact Hw.
 Qed.
 
